@@ -555,6 +555,21 @@ def run_property(mod, tier, seed, only=None):
             else:
                 det = "; ".join(str(o.get("replay")) for o in group[:3])[:600]
                 harness_errors.append(f"{cid}: {name}: solver model did not reproduce on the float code ({det})")
+    # ---- known findings carry the specific failing inputs they were recorded with: replay those on the float code, so that
+    # a listed finding is reported (and seen to persist) even when the solver search of this run did not rediscover it
+    by_id = {c.id: c for c in cases}
+    for kf in known:
+        if kf["id"] in known_hits:
+            continue
+        for inp in kf.get("inputs", []):
+            c = by_id.get(inp.get("case"))
+            if c is None:
+                continue
+            rep = float_replay(c, inp.get("model", {}))
+            bad = [x for x in rep.get("res", []) if not x["ok"] and re.fullmatch(kf["match"].get("name", ".*"), x["name"])]
+            if bad and not rep.get("assumption_failed"):
+                known_hits[kf["id"]] = (kf, c.id, bad[0]["name"], "recorded input %s" % json.dumps(inp.get("model")))
+                break
     # ---- cross-check: every case once more on the UNSHIMMED float code with random inputs (translator validation of
     # the shims and of the harness); a float failure of a clause the solver discharged is a harness error, never a verdict
     xc_ok = xc_skipped = 0
